@@ -31,6 +31,7 @@ def t_int(name):
 
 T_F32, T_F64 = Ty("float", "f32", bits=32), Ty("float", "f64", bits=64)
 T_BOOL, T_CHAR, T_STR = Ty("bool", "bool"), Ty("char", "char"), Ty("str", "str")
+T_DSTR = Ty("str", "DS")      # DS :: distinct str
 
 
 def int_range(T):
@@ -148,9 +149,7 @@ class Env:
         r.shuffle(pay)
         e1 = Ty("enum", "E1", variants=[(f"V{i}", p) for i, p in enumerate(pay[: r.range(3, 5)])])
         self.enums.append(e1)
-        f2 = [("m0", self._scalar(allow_str=True)), ("m1", self.opt(r.pick([self._scalar(wide=False), s0]))), ("m2", r.pick([e0, e1])), ("m3", self._scalar())]
-        if r.chance(1, 3):
-            f2.append(("m4", T_STR))
+        f2 = [("m0", self._scalar()), ("m1", self.opt(r.pick([self._scalar(wide=False), s0]))), ("m2", r.pick([e0, e1])), ("m3", self._scalar())]
         r.shuffle(f2)
         f2 = [(f"m{i}", t) for i, (_, t) in enumerate(f2)]
         s2 = Ty("struct", "S2", fields=f2)
@@ -161,6 +160,7 @@ class Env:
         for t in (s0, e0, s1, e1, s2, r0):
             self.decls.append(self.decl_text(t))
         self.decls.append("Sel :: enum { X, Y, Z };")
+        self.decls.append("DS :: distinct str;")
         self.cands = ["i32", "i64", "u8", "f64", "bool", "str", "S0", "[3]i32", "E0", "S1"]
 
     @staticmethod
@@ -181,26 +181,26 @@ class Env:
             return t_int(r.pick(INT_NAMES))
         if k == "float":
             return r.pick([T_F32, T_F64])
-        if k in ("bool", "char", "str"):
-            return {"bool": T_BOOL, "char": T_CHAR, "str": T_STR}[k]
+        if k == "str":
+            return T_DSTR if r.chance(1, 5) else T_STR
+        if k in ("bool", "char"):
+            return {"bool": T_BOOL, "char": T_CHAR}[k]
         if k == "arr":
-            ek = r.weighted([("scalar", 10), ("struct", 4), ("arr", 3), ("enum", 2), ("str", 1)])
+            ek = r.weighted([("scalar", 10), ("struct", 4), ("arr", 3), ("enum", 2)])
             if ek == "scalar":
                 return self.arr(self._scalar(), r.pick([17, 33, 40]) if r.chance(1, 10) else r.range(1, 6))
             if ek == "struct":
                 return self.arr(r.pick(self.structs), r.range(1, 3))
             if ek == "arr":
                 return self.arr(self.arr(self._scalar(), r.range(1, 3)), r.range(1, 3))
-            if ek == "enum":
-                return self.arr(r.pick(self.enums), r.range(1, 3))
-            return self.arr(T_STR, r.range(1, 3))
+            return self.arr(r.pick(self.enums), r.range(1, 3))
         if k == "struct":
             return r.pick(self.structs)
         if k == "enum":
             return r.pick(self.enums)
         if k == "opt":
-            sk = r.weighted([("scalar", 8), ("struct", 4), ("enum", 2), ("str", 1)])
-            sub = self._scalar() if sk == "scalar" else r.pick(self.structs) if sk == "struct" else r.pick(self.enums) if sk == "enum" else T_STR
+            sk = r.weighted([("scalar", 8), ("struct", 4), ("enum", 2)])
+            sub = self._scalar() if sk == "scalar" else r.pick(self.structs) if sk == "struct" else r.pick(self.enums)
             return self.opt(sub)
         if k == "eu":
             sk = r.weighted([("int", 6), ("other", 3), ("struct", 3)])
@@ -242,7 +242,7 @@ def render(env, T, v, off, top=False):
     if k == "char":
         return [f"vr_u64({B}, u64.(u8.({v})));"]
     if k == "str":
-        return ["vr_flush();", f"vr_str({B}, {v});"]
+        return ["vr_flush();", f"vr_str({B}, {v});" if T.name == "str" else f"vr_str({B}, str.({v}));"]
     if k == "type":
         return [f"vr_bool(b + {off + i}, {v} == {c});" for i, c in enumerate(T.cands)]
     if k == "arr":
@@ -341,9 +341,17 @@ STR_ALPHA = "abcdefghijklmnopqrstuvwxyzABCDEFGHIJKLMNOPQRSTUVWXYZ0123456789 _-+*
 
 
 def gen_str(rng):
-    n = rng.pick([0, 1, 2, 5, 9, 17, 40, 100, 300]) if rng.chance(1, 2) else rng.range(1, 30)
-    s = "".join(rng.pick(STR_ALPHA) for _ in range(n)).strip()
-    return s
+    n = rng.pick([0, 1, 2, 5, 9, 17, 40, 100, 200, 300]) if rng.chance(1, 2) else rng.range(1, 30)
+    esc = rng.chance(1, 3)
+    out = []
+    for _ in range(n):
+        if out and out[-1] == "\n":
+            out.append(rng.pick("abcdefghijklmnopqrstuvwxyz"))     # a continuation line never looks like an event line of the runtime
+        elif esc and rng.chance(1, 6):
+            out.append(rng.pick(["\n", "\t", '"', "\\"]))
+        else:
+            out.append(rng.pick(STR_ALPHA))
+    return "".join(out).strip()
 
 
 def gen_int_value(rng, T):
@@ -700,7 +708,7 @@ def gen_float(ctx, T, v, d):
 
 
 def str_lit(s):
-    return '"' + s + '"'
+    return '"' + s.replace("\\", "\\\\").replace('"', '\\"').replace("\n", "\\n").replace("\t", "\\t") + '"'
 
 
 def gen_direct(ctx, T, v, d):
@@ -724,13 +732,13 @@ def gen_direct(ctx, T, v, d):
         if r.chance(1, 2):
             return str_lit(v)
         n = ctx.fresh("s")
-        ctx.stmts.append(f"{n} : str = {str_lit(v)};")
+        ctx.stmts.append(f"{n} : {T.name} = {str_lit(v)};")
         return n
     if k == "type":
         return v
     if k == "arr":
         E = T.elem
-        if E.kind == "int" and T.n >= 2 and d > 0 and all(v[i + 1] - v[i] == v[1] - v[0] for i in range(T.n - 1)) and 0 < abs(v[1] - v[0]) <= 1000 and r.chance(2, 3):
+        if E.kind == "int" and T.n >= 2 and d > 0 and all(v[i + 1] - v[i] == v[1] - v[0] for i in range(T.n - 1)) and 0 < abs(v[1] - v[0]) * (T.n - 1) <= min(1000, int_range(E)[1]) and r.chance(2, 3):
             step = v[1] - v[0]
             a, i = ctx.fresh("a"), ctx.fresh("i")
             base = decl_int(ctx, E, v[0])
